@@ -20,6 +20,8 @@ import Yld.Proofs.Activation
 import Yld.Proofs.WFPreserved
 import Yld.Proofs.EndToEnd
 import Yld.Proofs.Logic
+import Yld.Proofs.LogicComplete
+import Yld.Proofs.LogicFacts
 import Std.Data.String.ToNat
 namespace Yld.C01
 
@@ -234,6 +236,34 @@ theorem every_consequence_is_found (cfg : Cfg) (preds : List Pred) (h : HornCfg 
     (query cfg f name args (waitFor θ w.next) w).2 ≠ none :=
   query_complete cfg preds h hnocut f name args hname w hdb hsc hargs θ hθ hh
 
+/-- … at the API: when the enumeration of all answers of a cut-free Horn program ends normally, every
+    instance of the goal that follows from the program is an instance of a recorded answer. -/
+theorem recorded_answers_cover_every_consequence (e : Engine) (hwf : e.WF) (preds : List Pred)
+    (h : HornCfg { blacklist := e.blacklist, defs := e.defs, mode := .reference } preds)
+    (hnocut : ∀ p ∈ preds, ∀ c ∈ p.clauses, c.body.cutFree = true) (hdb : e.w.db = [])
+    (f : Nat) (name : String) (args : List Term) (hname : userName name = true) (hargs : ArgsScoped e args)
+    (hend : (e.query .reference f name args .all).2.ending = none)
+    (θ : Nat → Term) (hθ : Solves θ e.w.b) (hh : Holds preds name (args.map (Term.subst θ))) :
+    ∃ ans ∈ (e.query .reference f name args .all).2.answers,
+      ∃ ts, ans = .fn "$ans" ts ∧ ∃ ρ : Nat → Term, ts.map (Term.subst ρ) = args.map (Term.subst θ) :=
+  answers_cover_all_consequences e hwf preds h hnocut hdb f name args hname hargs hend θ hθ hh
+
+/-- **Exactly Prolog's answers, in logical terms.** For a completed enumeration of a cut-free Horn
+    program: the instances of the recorded answers are exactly the instances of the goal that follow
+    from the program. -/
+theorem answers_are_exactly_the_logical_consequences (e : Engine) (hwf : e.WF) (preds : List Pred)
+    (h : HornCfg { blacklist := e.blacklist, defs := e.defs, mode := .reference } preds)
+    (hnocut : ∀ p ∈ preds, ∀ c ∈ p.clauses, c.body.cutFree = true) (hdb : e.w.db = [])
+    (f : Nat) (name : String) (args : List Term) (hname : userName name = true) (hargs : ArgsScoped e args)
+    (hend : (e.query .reference f name args .all).2.ending = none)
+    (hc : (e.query .reference f name args .all).2.cyc = false) :
+    (∀ ans ∈ (e.query .reference f name args .all).2.answers,
+      ∃ ts, ans = .fn "$ans" ts ∧ ∀ ρ : Nat → Term, Holds preds name (ts.map (Term.subst ρ))) ∧
+    (∀ θ, Solves θ e.w.b → Holds preds name (args.map (Term.subst θ)) →
+      ∃ ans ∈ (e.query .reference f name args .all).2.answers,
+        ∃ ts, ans = .fn "$ans" ts ∧ ∃ ρ : Nat → Term, ts.map (Term.subst ρ) = args.map (Term.subst θ)) :=
+  answers_are_exactly_the_consequences e hwf preds h hnocut hdb f name args hname hargs hend hc
+
 /-- The hypothesis `HornCfg` is what loading a Horn program gives. -/
 theorem loading_a_horn_program_gives_a_horn_table (cs : List SClause)
     (hcs : ∀ c ∈ cs, userName c.name = true ∧ c.name ≠ "=" ∧ c.clause.body.horn = true ∧
@@ -271,6 +301,79 @@ theorem printed_python_answers_are_logical_consequences (e : Engine) (hwf : e.WF
   rw [(printed_text_has_textbook_semantics e hwf hsrc hpy f name args hargs sched h1 h2 hc1 hc2).1]
   exact answers_are_consequences (e.withMode .reference) (wf_withMode e hwf .reference) preds h hdb f name args hname
     hargs sched hc1
+
+/-- **The printed Python computes exactly the logical consequences.** For a cut-free Horn program, every
+    predicate run by interpreting the Python text the compiler prints for it: when the enumeration of
+    all answers completes (and neither run is cut off or builds a cyclic term), the instances of the
+    recorded answers are exactly the instances of the goal that follow from the clauses read as
+    implications. -/
+theorem printed_python_answers_are_exactly_the_logical_consequences (e : Engine) (hwf : e.WF) (hsrc : SrcDefs e.defs)
+    (hpy : DefsPyOK (e.withMode .compiled).defs) (preds : List Pred)
+    (h : HornCfg { blacklist := e.blacklist, defs := (e.withMode .reference).defs, mode := .reference } preds)
+    (hnocut : ∀ p ∈ preds, ∀ c ∈ p.clauses, c.body.cutFree = true)
+    (hdb : e.w.db = []) (f : Nat) (name : String) (args : List Term) (hname : userName name = true)
+    (hargs : ArgsScoped e args)
+    (hend : ((e.withMode .compiled).query .compiled f name args .all true).2.ending = none)
+    (h1 : ((e.withMode .reference).query .reference f name args .all).2.ending ≠ some .oof)
+    (hc1 : ((e.withMode .reference).query .reference f name args .all).2.cyc = false)
+    (hc2 : ((e.withMode .compiled).query .compiled f name args .all true).2.cyc = false) :
+    (∀ ans ∈ ((e.withMode .compiled).query .compiled f name args .all true).2.answers,
+      ∃ ts, ans = .fn "$ans" ts ∧ ∀ ρ : Nat → Term, Holds preds name (ts.map (Term.subst ρ))) ∧
+    (∀ θ, Solves θ e.w.b → Holds preds name (args.map (Term.subst θ)) →
+      ∃ ans ∈ ((e.withMode .compiled).query .compiled f name args .all true).2.answers,
+        ∃ ts, ans = .fn "$ans" ts ∧ ∃ ρ : Nat → Term, ts.map (Term.subst ρ) = args.map (Term.subst θ)) := by
+  have h2 : ((e.withMode .compiled).query .compiled f name args .all true).2.ending ≠ some .oof := by
+    rw [hend]; exact fun x => by cases x
+  obtain ⟨ea, ee⟩ := printed_text_has_textbook_semantics e hwf hsrc hpy f name args hargs .all h1 h2 hc1 hc2
+  rw [ea]
+  rw [ee] at hend
+  exact answers_are_exactly_the_consequences (e.withMode .reference) (wf_withMode e hwf .reference) preds h hnocut hdb
+    f name args hname hargs hend hc1
+
+/-! ### … and with a fact store
+
+`HoldsF db preds` adds to `Holds preds` the rule that every instance of a stored fact holds: the store
+as unit clauses (of any name, also next to clauses of the same name). Horn bodies cannot change the
+store, so it is a constant of the run. -/
+
+/-- Every answer follows from program and store, whatever (closed) facts the store holds. -/
+theorem answers_follow_from_program_and_facts (e : Engine) (hwf : e.WF) (preds : List Pred)
+    (h : HornCfg { blacklist := e.blacklist, defs := e.defs, mode := .reference } preds)
+    (f : Nat) (name : String) (args : List Term) (hname : userName name = true) (hargs : ArgsScoped e args) (sched : Sched)
+    (hc : (e.query .reference f name args sched).2.cyc = false) :
+    ∀ ans ∈ (e.query .reference f name args sched).2.answers,
+      ∃ ts, ans = .fn "$ans" ts ∧ ∀ ρ : Nat → Term, HoldsF e.w.db preds name (ts.map (Term.subst ρ)) :=
+  answers_are_consequences_facts e hwf preds h f name args hname hargs sched hc
+
+/-- Without cut, a completed enumeration has recorded every consequence of program and store. -/
+theorem recorded_answers_cover_every_consequence_of_program_and_facts (e : Engine) (hwf : e.WF) (preds : List Pred)
+    (h : HornCfg { blacklist := e.blacklist, defs := e.defs, mode := .reference } preds)
+    (hnocut : ∀ p ∈ preds, ∀ c ∈ p.clauses, c.body.cutFree = true)
+    (f : Nat) (name : String) (args : List Term) (hname : userName name = true) (hargs : ArgsScoped e args)
+    (hend : (e.query .reference f name args .all).2.ending = none)
+    (θ : Nat → Term) (hθ : Solves θ e.w.b) (hh : HoldsF e.w.db preds name (args.map (Term.subst θ))) :
+    ∃ ans ∈ (e.query .reference f name args .all).2.answers,
+      ∃ ts, ans = .fn "$ans" ts ∧ ∃ ρ : Nat → Term, ts.map (Term.subst ρ) = args.map (Term.subst θ) :=
+  answers_cover_all_consequences_facts e hwf preds h hnocut f name args hname hargs hend θ hθ hh
+
+/-- At the generator level, for any consumer: soundness and completeness with a store. -/
+theorem consumer_sees_only_consequences_of_program_and_facts (cfg : Cfg) (preds : List Pred) (h : HornCfg cfg preds) (f : Nat)
+    (name : String) (args : List Term) (hname : userName name = true) (w : World) (hcl : DbClosed w.db) (hsc : w.Scoped)
+    (hargs : ∀ t ∈ args, ∀ x ∈ t.vars, x < w.next) (k1 k2 : K) (hq1 : Quiet k1) (hq2 : Quiet k2)
+    (hk : ∀ w', GoalHoldsF w.db preds name args w' → k1 w' = k2 w') :
+    query cfg f name args k1 w = query cfg f name args k2 w :=
+  query_sound_facts cfg preds h f name args hname w hcl hsc hargs k1 k2 hq1 hq2 hk
+theorem every_consequence_of_program_and_facts_is_found (cfg : Cfg) (preds : List Pred) (h : HornCfg cfg preds)
+    (hnocut : ∀ p ∈ preds, ∀ c ∈ p.clauses, c.body.cutFree = true)
+    (f : Nat) (name : String) (args : List Term) (hname : userName name = true)
+    (w : World) (hcl : DbClosed w.db) (hsc : w.Scoped) (hargs : ∀ t ∈ args, ∀ x ∈ t.vars, x < w.next)
+    (θ : Nat → Term) (hθ : Solves θ w.b) (hh : HoldsF w.db preds name (args.map (Term.subst θ))) :
+    (query cfg f name args (waitFor θ w.next) w).2 ≠ none :=
+  query_complete_facts cfg preds h hnocut f name args hname w hcl hsc hargs θ hθ hh
+
+/-- With an empty store this is the reading without facts. -/
+theorem no_facts_no_difference (preds : List Pred) (name : String) (args : List Term) :
+    HoldsF [] preds name args ↔ Holds preds name args := holdsF_nil preds name args
 
 /-- Not vacuous: `app/3`, its table, a derivation, and the three theorems applied to `app(X,Y,[a])`
     are in Yld/Proofs/Logic.lean (`app_hornCfg`, `app_holds`, the three `example`s). -/
